@@ -36,6 +36,8 @@ ResultOK(e) ==
     /\ txt = e.txt
     /\ e.raised = (fault # "none")
     /\ (~e.raised => (e.comp = CompSeq(total) /\ e.q = ChargeOf))
+    \* C13: every un-presented rendering that was recorded shows exactly the spec's tokens
+    /\ (~e.raised => \A i \in 1..Len(e.shown) : e.shown[i] = Render)
 
 TStep ==
     /\ verdict = "none" /\ pos <= Len(Traces[tid])
@@ -59,7 +61,8 @@ Clause ==
       ELSE IF e.raised /\ fault = "none" THEN "unexpected-raise"
       ELSE IF ~e.raised /\ fault # "none" THEN "missing-raise"
       ELSE IF e.comp # CompSeq(total) THEN "comp"
-      ELSE "charge"
+      ELSE IF e.q # ChargeOf THEN "charge"
+      ELSE "render"
 
 E_All == 1..118
 Verdict == verdict # "none" =>
